@@ -168,7 +168,7 @@ void* operator new[](size_t n)
 {
    void* p = malloc(n ? n : 1);
    if(!p) throw std::bad_alloc();
-   if(g_track >= 0)
+   if(g_track >= 0 && g_track < (int)F_COUNT)
    {
       g_na[g_na_n % 256].p = p;
       g_na[g_na_n % 256].n = n;
@@ -228,13 +228,13 @@ static BlockInfo blockInfo(const void* p)
 
 // ------------------------------------------------------------------------------------------------ exact-length arrays
 static const int PADN = 4;
-static bool padOutputs(Rng& g)
+static int padOutputs(Rng& g)     // number of canary elements on each side of an output array (0: exact block)
 {
 #if VL_ASAN
-   return g.chance(0.5);    // exact block: ASan red zone right behind the contract length; padded: canaries
+   return g.chance(0.5) ? PADN : 0;    // exact block: ASan red zone right behind the contract length; padded: canaries
 #else
    (void)g;
-   return true;             // no red zones in this flavour: always canaries
+   return PADN;             // no red zones in this flavour: always canaries
 #endif
 }
 // input array: heap block of exactly n elements
@@ -263,7 +263,7 @@ template <class T> struct OutArr
    T* p;
    int n, pad;
    T can;
-   OutArr(int n_, bool padded, T can_) : n(n_), pad(padded ? PADN : 0), can(can_)
+   OutArr(int n_, int pad_, T can_) : n(n_), pad(pad_), can(can_)
    {
       base = (T*)malloc(sizeof(T) * (size_t)(n + 2 * pad));
       for(int i = 0; i < n + 2 * pad; i++) memcpy(&base[i], &can, sizeof(T));
@@ -525,7 +525,7 @@ struct Call
    }
    ~Call()
    {
-      g_track = -1;
+      g_track = F_COUNT + g_track;      // mirror phase of the same function (until post())
       g_curfn = nullptr;
    }
 };
@@ -544,6 +544,7 @@ static void viol(Ctx& c, const std::string& site, const std::string& what, const
 // after every call: all C++ accessors of *(SoPlex*)H and of M agree
 static void post(Ctx& c, Fn f)
 {
+   g_track = -1;
    if(c.dead || c.H == nullptr) return;
    sink().count("oracle.twin_compared");
    std::string d = diffSoPlex(c.h(), *c.M);
@@ -638,11 +639,11 @@ static void pickRangeQ(Rng& g, LPair& lo, LPair& hi)
 }
 // contract length of a dense vector argument over `cur` existing rows/columns: usually cur; sometimes a prefix;
 // sometimes longer (entries beyond cur create new rows/columns, as the C test program does on an empty LP)
-static int pickDenseLen(Rng& g, int cur)
+static int pickDenseLen(Rng& g, int cur, bool mayGrow)
 {
    int t = g.range(0, 9);
    if(t == 0 && cur > 0) return g.range(0, cur - 1);
-   if(t <= 2 && cur < MAXDIM) return g.range(cur + 1, std::min(MAXDIM, cur + 2));
+   if(t <= 2 && cur < MAXDIM && mayGrow) return g.range(cur + 1, std::min(MAXDIM, cur + 2));
    return cur;
 }
 // dimension argument of an output vector over `cur` elements: exact or larger than needed
@@ -660,6 +661,13 @@ static bool ratLP(Ctx& c)
 static bool autoSync(Ctx& c)
 {
    return c.M->_rationalLP != nullptr && c.M->intParam(SoPlex::SYNCMODE) == SoPlex::SYNCMODE_AUTO;
+}
+// Entries beyond the current dimension create rows/columns.  On a persistently scaled LP SPxLPBase::doAddRow/doAddCol read
+// the scaling exponent of the not yet existing column/row (uninitialised memory: twin objects diverge even in pure C++),
+// so histories grow the LP implicitly only while it is unscaled.
+static bool mayGrow(Ctx& c)
+{
+   return !c.M->_realLP->isScaled();
 }
 static double INF(Ctx& c)
 {
@@ -691,6 +699,7 @@ static void opFree(Ctx& c)
    c.H = nullptr;
    delete c.M;
    c.M = nullptr;
+   g_track = -1;
 }
 
 // ---- parameters.  Codes are the C++ enumerators; values: the default / current value for every code (always valid),
@@ -858,7 +867,7 @@ static bool opAddRowReal(Ctx& c)
 {
    Rng& g = c.g;
    if(c.M->numRows() >= MAXDIM) return false;
-   int len = pickDenseLen(g, c.M->numCols()), nz;
+   int len = pickDenseLen(g, c.M->numCols(), mayGrow(c)), nz;
    std::vector<double> e = pickDense(g, len, nz);
    int nnz = pickNnz(g, nz);
    double lo, hi;
@@ -882,7 +891,7 @@ static bool opAddColReal(Ctx& c)
 {
    Rng& g = c.g;
    if(c.M->numCols() >= MAXDIM) return false;
-   int len = pickDenseLen(g, c.M->numRows()), nz;
+   int len = pickDenseLen(g, c.M->numRows(), mayGrow(c)), nz;
    std::vector<double> e = pickDense(g, len, nz);
    int nnz = pickNnz(g, nz);
    double lo, hi, obj = g.chance(0.2) ? 0.0 : pickFinite(g);
@@ -1167,7 +1176,7 @@ static bool opAddRowRational(Ctx& c)
 {
    Rng& g = c.g;
    if(!ratLP(c) || c.M->numRowsRational() >= MAXDIM || c.M->numRows() >= MAXDIM) return false;
-   int len = pickDenseLen(g, c.M->numColsRational()), nz;
+   int len = pickDenseLen(g, c.M->numColsRational(), mayGrow(c)), nz;
    std::vector<long> nums, dens;
    pickDensePairs(g, len, nums, dens, nz);
    int nnz = pickNnz(g, nz);
@@ -1193,7 +1202,7 @@ static bool opAddColRational(Ctx& c)
 {
    Rng& g = c.g;
    if(!ratLP(c) || c.M->numColsRational() >= MAXDIM || c.M->numCols() >= MAXDIM) return false;
-   int len = pickDenseLen(g, c.M->numRowsRational()), nz;
+   int len = pickDenseLen(g, c.M->numRowsRational(), mayGrow(c)), nz;
    std::vector<long> nums, dens;
    pickDensePairs(g, len, nums, dens, nz);
    int nnz = pickNnz(g, nz);
@@ -1394,8 +1403,17 @@ static bool opSolVecReal(Ctx& c, Fn f)
    int cur = f == F_getDualReal ? c.M->numRows() : c.M->numCols();
    int dim = pickOutDim(g, cur);
    if(cur > 0 && g.chance(0.05)) dim = cur - 1;        // too short: the C++ call refuses and must not write
-   bool pad = padOutputs(g);
-   OutArr<double> a(dim, pad, canD()), b(dim, false, canD());
+   int pad = padOutputs(g);
+   // the C++ getters copy their whole internal solution vector; if that is longer than dim (seen after infeasible exact
+   // solves) the overrun is observed with canaries instead of letting the red zone kill the rest of the history
+   int internal = f == F_getPrimalReal ? c.M->_solReal._primal.dim() : f == F_getDualReal ? c.M->_solReal._dual.dim() : c.M->_solReal._redCost.dim();
+   int padM = PADN;
+   if(c.M->hasSol() && dim >= cur && internal > dim)
+   {
+      pad = padM = std::max(PADN, internal - dim + 1);
+      sink().count("getter.internal_vector_longer_than_dim");
+   }
+   OutArr<double> a(dim, pad, canD()), b(dim, padM, canD());
    bool ok;
    {
       Call _(c, f);
@@ -1408,7 +1426,8 @@ static bool opSolVecReal(Ctx& c, Fn f)
    else ok = c.M->getRedCostReal(b.p, dim);
    sink().count(ok ? "getter.solution_available" : "getter.no_solution");
    if(dim > cur) sink().count("args.dim_larger_than_needed");
-   if(!a.padsIntact()) viol(c, f, "writes-beyond-dim", std::string(FN[f]) + " wrote outside the " + std::to_string(dim) + " elements of its array");
+   if(!a.padsIntact()) viol(c, f, "writes-beyond-dim", std::string(FN[f]) + " wrote outside the " + std::to_string(dim) + " elements of its array (numRows/numCols = " +
+                               std::to_string(cur) + (b.padsIntact() ? ")" : "); the wrapped C++ call does the same on the mirror"));
    for(int i = 0; i < dim; i++) if(!sameBits(a.p[i], b.p[i]))
       {
          viol(c, f, "value-mismatch", "element " + std::to_string(i) + " of " + std::to_string(dim) + ": C array " + ds(a.p[i]) + ", C++ getter " + ds(b.p[i]) +
@@ -1418,27 +1437,32 @@ static bool opSolVecReal(Ctx& c, Fn f)
    post(c, f);
    return true;
 }
-// getLowerReal / getUpperReal / getObjReal(array, dim): dim is the length of the array, at least numCols (the
-// interpretation closest to the other getters; the C test does not call these); elements 0..numCols-1 carry the values.
+// getLowerReal / getUpperReal / getObjReal(array, dim) wrap the C++ getXxxReal(VectorBase&) with a vector of dim entries.
+// On a scaled LP that C++ call requires (asserts) a vector of exactly numCols entries, so dim = numCols is the only
+// valid value.  The oracle is the wrapped vector getter itself (on scaled LPs it differs from lowerReal(j) for infinite
+// bounds, which is the C++ library's business, not the wrapper's).
 static bool opColVecGetter(Ctx& c, Fn f)
 {
    Rng& g = c.g;
    int n = c.M->numCols();
-   int dim = pickOutDim(g, n);
-   bool pad = padOutputs(g);
+   int dim = n;
+   int pad = padOutputs(g);
    OutArr<double> a(dim, pad, canD());
+   VectorBase<double> want(n);
+   if(f == F_getLowerReal) c.M->getLowerReal(want);
+   else if(f == F_getUpperReal) c.M->getUpperReal(want);
+   else c.M->getObjReal(want);
    {
       Call _(c, f);
       if(f == F_getLowerReal) SoPlex_getLowerReal(c.H, a.p, dim);
       else if(f == F_getUpperReal) SoPlex_getUpperReal(c.H, a.p, dim);
       else SoPlex_getObjReal(c.H, a.p, dim);
    }
-   if(dim > n) sink().count("args.dim_larger_than_needed");
    if(c.M->_realLP->isScaled()) sink().count("getter.on_scaled_lp");
    if(!a.padsIntact()) viol(c, f, "writes-beyond-dim", std::string(FN[f]) + " wrote outside the " + std::to_string(dim) + " elements of its array");
    for(int j = 0; j < n; j++)
    {
-      double w = f == F_getLowerReal ? c.M->lowerReal(j) : f == F_getUpperReal ? c.M->upperReal(j) : c.M->objReal(j);
+      double w = want[j];
       if(!sameBits(a.p[j], w))
       {
          viol(c, f, "value-mismatch", "element " + std::to_string(j) + ": C array " + ds(a.p[j]) + ", C++ getter " + ds(w));
@@ -1456,7 +1480,7 @@ static bool opGetRowVectorReal(Ctx& c)
    int m = c.M->numRows(), n = c.M->numCols();
    if(m == 0) return false;
    int i = g.range(0, m - 1), L = pickOutDim(g, n);
-   bool pad = padOutputs(g);
+   int pad = padOutputs(g);
    OutArr<long> idx(L, pad, CAN_L);
    OutArr<double> coef(L, pad, canD());
    OutArr<int> nnz(1, pad, CAN_I);
@@ -1488,7 +1512,7 @@ static bool opGetRowBoundsReal(Ctx& c)
    int m = c.M->numRows();
    if(m == 0) return false;
    int i = c.g.range(0, m - 1);
-   bool pad = padOutputs(c.g);
+   int pad = padOutputs(c.g);
    OutArr<double> lb(1, pad, canD()), ub(1, pad, canD());
    {
       Call _(c, F_getRowBoundsReal);
@@ -1513,7 +1537,7 @@ static bool opGetRowBoundsRational(Ctx& c)
 {
    if(!ratLP(c) || c.M->numRowsRational() == 0) return false;
    int i = c.g.range(0, c.M->numRowsRational() - 1);
-   bool pad = padOutputs(c.g);
+   int pad = padOutputs(c.g);
    OutArr<long> ln(1, pad, CAN_L), ld(1, pad, CAN_L), un(1, pad, CAN_L), ud(1, pad, CAN_L);
    {
       Call _(c, F_getRowBoundsRational);
@@ -1534,7 +1558,7 @@ static bool opGetRowVectorRational(Ctx& c)
    Rng& g = c.g;
    if(!ratLP(c) || c.M->numRowsRational() == 0) return false;
    int i = g.range(0, c.M->numRowsRational() - 1), n = c.M->numColsRational(), L = pickOutDim(g, n);
-   bool pad = padOutputs(g);
+   int pad = padOutputs(g);
    OutArr<long> idx(L, pad, CAN_L), cn(L, pad, CAN_L), cd(L, pad, CAN_L);
    OutArr<int> nnz(1, pad, CAN_I);
    if(c.M->rowVectorRational(i).size() == 0) sink().count("getter.empty_row");
@@ -1637,6 +1661,56 @@ static bool opGetPrimalRationalString(Ctx& c, bool documentedFree = false)
    return true;
 }
 // ---- files
+// The file functions of the C++ class can throw (e.g. strict_fstream::Exception for a file that cannot be opened, an
+// SPxInternalCodeException from the LP writer).  That is the C++ call's own behaviour (properties C12-C14), so here only
+// the equality is judged: the C function must throw exactly when the wrapped C++ call throws.  Returns true if the
+// history can go on (nobody threw).
+template <class FH, class FM> static bool callBoth(Ctx& c, Fn f, FH callH, FM callM)
+{
+   bool th = false, tm = false;
+   std::string wh, wm;
+   {
+      Call _(c, f);
+      try
+      {
+         callH();
+      }
+      catch(const SPxException& e)
+      {
+         th = true;
+         wh = e.what();
+      }
+      catch(const std::exception& e)
+      {
+         th = true;
+         wh = e.what();
+      }
+   }
+   try
+   {
+      callM();
+   }
+   catch(const SPxException& e)
+   {
+      tm = true;
+      wm = e.what();
+   }
+   catch(const std::exception& e)
+   {
+      tm = true;
+      wm = e.what();
+   }
+   g_track = -1;
+   if(th != tm) viol(c, f, "exception-mismatch", std::string(FN[f]) + (th ? " threw [" + wh + "] but the C++ call did not" : " returned but the C++ call threw [" + wm + "]"));
+   if(th || tm)
+   {
+      sink().count(std::string("exception.") + FN[f]);
+      vlog("  exception: %s", (th ? wh : wm).c_str());
+      c.dead = true;      // both objects are in whatever state the exception left them: end of this history
+      return false;
+   }
+   return true;
+}
 static std::string slurp(const std::string& p, bool& ok)
 {
    std::ifstream f(p, std::ios::binary);
@@ -1650,12 +1724,9 @@ static bool opWriteFileReal(Ctx& c)
    const char* ext = c.g.chance(0.5) ? ".lp" : ".mps";
    std::string fh = c.newFile(ext), fm = c.newFile(ext);
    char* name = heapStr(fh);
-   {
-      Call _(c, F_writeFileReal);
-      SoPlex_writeFileReal(c.H, name);
-   }
+   bool cont = callBoth(c, F_writeFileReal, [&]() { SoPlex_writeFileReal(c.H, name); }, [&]() { c.M->writeFile(fm.c_str()); });
    free(name);
-   c.M->writeFile(fm.c_str());
+   if(!cont) return true;
    bool ok1, ok2;
    std::string a = slurp(fh, ok1), b = slurp(fm, ok2);
    if(ok1 != ok2 || a != b) viol(c, F_writeFileReal, "file-mismatch", "file written through the C interface differs from the file written by C++ writeFile (" +
@@ -1700,13 +1771,11 @@ static bool opReadInstanceFile(Ctx& c)
       f << randomLPText(g);
    }
    char* name = heapStr(path);
-   int r;
-   {
-      Call _(c, F_readInstanceFile);
-      r = SoPlex_readInstanceFile(c.H, name);
-   }
-   bool w = c.M->readFile(name);
+   int r = -1;
+   bool w = false;
+   bool cont = callBoth(c, F_readInstanceFile, [&]() { r = SoPlex_readInstanceFile(c.H, name); }, [&]() { w = c.M->readFile(name); });
    free(name);
+   if(!cont) return true;
    sink().count(std::string("ret.readInstanceFile.") + std::to_string(r));
    if(r != (int)w) viol(c, F_readInstanceFile, "return-mismatch", "SoPlex_readInstanceFile = " + std::to_string(r) + ", C++ readFile = " + std::to_string((int)w));
    post(c, F_readInstanceFile);
@@ -1725,13 +1794,11 @@ static bool opReadBasisFile(Ctx& c)
    else path = cli.tmpdir + "/c20_does_not_exist.bas";
    c.lastBasisFile = path;
    char* name = heapStr(path);
-   int r;
-   {
-      Call _(c, F_readBasisFile);
-      r = SoPlex_readBasisFile(c.H, name);
-   }
-   bool w = c.M->readBasisFile(name);
+   int r = -1;
+   bool w = false;
+   bool cont = callBoth(c, F_readBasisFile, [&]() { r = SoPlex_readBasisFile(c.H, name); }, [&]() { w = c.M->readBasisFile(name); });
    free(name);
+   if(!cont) return true;
    sink().count(std::string("ret.readBasisFile.") + std::to_string(r));
    if(r != (int)w) viol(c, F_readBasisFile, "return-mismatch", "SoPlex_readBasisFile = " + std::to_string(r) + ", C++ readBasisFile = " + std::to_string((int)w));
    post(c, F_readBasisFile);
@@ -1756,13 +1823,11 @@ static bool opReadSettingsFile(Ctx& c)
         << g.range(5, 8) << "\nint:pricer = " << g.range(0, 5) << "\n";
    }
    char* name = heapStr(path);
-   int r;
-   {
-      Call _(c, F_readSettingsFile);
-      r = SoPlex_readSettingsFile(c.H, name);
-   }
-   bool w = c.M->loadSettingsFile(name);
+   int r = -1;
+   bool w = false;
+   bool cont = callBoth(c, F_readSettingsFile, [&]() { r = SoPlex_readSettingsFile(c.H, name); }, [&]() { w = c.M->loadSettingsFile(name); });
    free(name);
+   if(!cont) return true;
    sink().count(std::string("ret.readSettingsFile.") + std::to_string(r));
    if(r != (int)w) viol(c, F_readSettingsFile, "return-mismatch", "SoPlex_readSettingsFile = " + std::to_string(r) + ", C++ loadSettingsFile = " + std::to_string((int)w));
    post(c, F_readSettingsFile);
@@ -1891,19 +1956,24 @@ static void leakAudit(Ctx& c)
    sink().count("leak.audits");
    if(g_lt_overflow) sink().count("leak.table_overflow");
    if(g_lt_live == 0) return;
-   std::map<int, std::pair<long, long>> byFn;      // fn -> (blocks, bytes)
+   // blocks allocated inside a C call (fn < F_COUNT) or inside the mirror's C++ call (fn >= F_COUNT) that survived
+   // the destruction of both objects
+   std::map<int, std::pair<long, long>> byFn, byFnM;      // fn -> (blocks, bytes)
    for(size_t i = 0; i < LT_SIZE; i++) if(g_lt[i].key > 1)
       {
-         byFn[g_lt[i].fn].first++;
-         byFn[g_lt[i].fn].second += g_lt[i].size;
+         auto& e = g_lt[i].fn < F_COUNT ? byFn[g_lt[i].fn] : byFnM[g_lt[i].fn - F_COUNT];
+         e.first++;
+         e.second += g_lt[i].size;
       }
    int leaks = __lsan_do_recoverable_leak_check();      // the table holds masked pointers only: it keeps nothing alive
    for(auto& kv : byFn)
    {
+      long mirrorBlocks = byFnM.count(kv.first) ? byFnM[kv.first].first : 0;
       std::string d = std::to_string(kv.second.first) + " block(s), " + std::to_string(kv.second.second) + " byte(s) allocated inside " + FN[kv.first] +
-                      " are still allocated after SoPlex_free";
-      if(leaks) viol(c, (Fn)kv.first, "leak", d + " and LeakSanitizer reports unreachable memory");
-      else sink().count("leak.survivors_reachable");
+                      " are still allocated after SoPlex_free (the wrapped C++ calls on the mirror left " + std::to_string(mirrorBlocks) + " block(s))";
+      if(!leaks) sink().count("leak.survivors_reachable");
+      else if(kv.second.first > mirrorBlocks) viol(c, (Fn)kv.first, "leak", d + " and LeakSanitizer reports unreachable memory");
+      else sink().count(std::string("leak.in_wrapped_cpp_call.") + FN[kv.first]);      // the C++ library's own leak: not the wrapper's
    }
    for(size_t i = 0; i < LT_SIZE; i++) if(g_lt[i].key > 1) __lsan_ignore_object((const void*)(g_lt[i].key ^ LT_MASK));
 #else
@@ -2021,6 +2091,7 @@ static void caseCTest(Ctx& c, int part)
          Call _(c, F_getPrimalReal);
          SoPlex_getPrimalReal(c.H, pr.p, 2);
       }
+      post(c, F_getPrimalReal);
       expectD("primal0", pr.p[0], 0.0);
       expectD("primal1", pr.p[1], -10.0);
       double ov;
